@@ -83,7 +83,13 @@ def xml_profile_base():
 # state classes whose fields the 2020a <state> element can carry (position + orientation + time and optional fields)
 XML_TRAJ_CLASSES = ["KSState", "STState", "MBState", "ExtendedPMState", "InitialState"]
 XML_CUSTOM_EXTRA = ["velocity", "acceleration", "yaw_rate", "slip_angle", "steering_angle", "curvature",
-                    "curvature_rate", "jerk", "jounce", "velocity_y", "position_z"]
+                    "curvature_rate", "jerk", "jounce", "velocity_y", "position_z",
+                    # the multi-body attributes (a custom state may carry any subset of them)
+                    "roll_angle", "roll_rate", "pitch_angle", "pitch_rate", "velocity_z", "roll_angle_front",
+                    "roll_rate_front", "velocity_y_front", "position_z_front", "velocity_z_front", "roll_angle_rear",
+                    "roll_rate_rear", "velocity_y_rear", "position_z_rear", "velocity_z_rear",
+                    "left_front_wheel_angular_speed", "right_front_wheel_angular_speed",
+                    "left_rear_wheel_angular_speed", "right_rear_wheel_angular_speed", "delta_y_f", "delta_y_r"]
 PB_TRAJ_CLASSES = XML_TRAJ_CLASSES + ["STDState", "PMState"]   # the pb State message has no hitch_angle (KST)
 PB_CUSTOM_EXTRA = [f for f in XML_CUSTOM_EXTRA if f != "jounce"]
 
